@@ -452,11 +452,15 @@ def handleLeave (fs : List (String × String)) : String := Id.run do
   let failed := (getNat fs "failed").getD 0
   let listed := (getNat fs "listed").getD 0
   let okReturned := (scenario == "plain" && res1 == "nil") || (scenario != "plain" && res2 == "nil")
+  let inv := getD fs "inv" "ok"
   let bad : Option String :=
-    if okReturned && sent == 0 then
+    if inv != "ok" then some s!"cluster-invariant:{inv}"
+    else if okReturned && sent == 0 then
       some s!"leave-returned-nil-before-any-peer-was-sent-the-departure:{scenario}"
-    else if okReturned && failed > 0 then some s!"departure-recorded-as-failure-by-{failed}-peers"
-    else if okReturned && listed > 0 then some s!"departed-node-still-listed-by-{listed}-peers-after-20s"
+    -- what the peers record is judged only without injected loss: in the timeout scenario the departure
+    -- packets are dropped by the network on purpose, and the property does not quantify over loss
+    else if okReturned && scenario == "plain" && failed > 0 then some s!"departure-recorded-as-failure-by-{failed}-peers"
+    else if okReturned && scenario == "plain" && listed > 0 then some s!"departed-node-still-listed-by-{listed}-peers-after-20s"
     else none
   return s!"agree {match bad with | none => "ok" | some b => "BAD:" ++ b} nt={if left ≥ 2 then 1 else 0} br=leave-{scenario}-{res1}-{res2} "
 
